@@ -179,6 +179,24 @@ def sweep_chunks(tier, seed):
     names = [k for k in sut.identifier_names() if k not in KNOWN]
     names += [k for k in KEYS if k not in names]
 
+    # names the logging module reserves on its records
+    import logging
+    rec = logging.LogRecord('n', 0, 'p', 0, 'm', (), None)
+    names += [k for k in sorted(rec.__dict__) + ['message', 'asctime']
+              if k not in names and spec.KEY_RE.fullmatch(k.encode('ascii'))]
+
+    # every known name with two neighbouring letters swapped, reversed,
+    # and rotated
+    for k in sorted(KNOWN):
+        variants = [k[::-1], k[1:] + k[:1]]
+        variants += [k[:i] + k[i + 1] + k[i] + k[i + 2:]
+                     for i in range(len(k) - 1)]
+
+        for v in variants:
+            if v not in names and v not in KNOWN and \
+                    spec.KEY_RE.fullmatch(v.encode('ascii')):
+                names.append(v)
+
     # the other spelling of every name with a separator in it
     for k in sorted(KNOWN) + list(names):
         for v in (k.replace('_', '-'), k.replace('-', '_'),
